@@ -249,18 +249,19 @@ def encOps (o : Option (String × OpsFile)) : Json :=
       ("assigns", Json.arr (f.assigns.map (fun (n, ls) => Json.arr #[.str n, Json.arr (ls.map Json.str).toArray])).toArray)]
 
 open Ariadne.ClientSem in
-def encView (name : String) (v : Option MethodView) : Json :=
-  match v with
-  | none => Json.mkObj [("method", name), ("view", .null)]
+def encView (md : Method) : Json :=
+  match shapeOf md with
+  | none => Json.mkObj [("method", md.name), ("view", .null)]
   | some v =>
-    Json.mkObj [("method", name), ("view", Json.mkObj [
-      ("kind", match v.kind with | .sync => "sync" | .async => "async" | .subscription => "subscription"),
+    Json.mkObj [("method", md.name), ("view", Json.mkObj [
+      ("kind", match v.tail with | .call true _ _ => "async" | .call false _ _ => "sync" | .sub _ _ _ => "subscription"),
       ("op", match v.op with
-        | .inline ls => Json.mkObj [("inline", Json.arr (ls.map Json.str).toArray)]
+        | .inline _ ls => Json.mkObj [("inline", Json.arr (ls.map Json.str).toArray)]
         | .const c => Json.mkObj [("const", c)]),
       ("opName", v.opName), ("variables", encEx v.variables), ("retClass", v.retClass),
       ("proj", Json.arr (v.proj.map Json.str).toArray),
-      ("bodyImports", Json.arr (v.bodyImports.map encImp).toArray)])]
+      ("bodyImports", Json.arr (v.imports.map encImp).toArray)]),
+      ("roundtrip", Json.arr ((bodyOf v).map encStmt).toArray), ("body", Json.arr (md.body.map encStmt).toArray)]
 
 open Ariadne.ClientSem in
 def handle (j : Json) : Except String Json := do
@@ -278,7 +279,7 @@ def handle (j : Json) : Except String Json := do
       match ps.clientModule? with
       | some m =>
         match m.firstClass? with
-        | some c => c.methods.map (fun md => encView md.name (viewOf md))
+        | some c => c.methods.map encView
         | none => []
       | none => []
     let pkgChecks : Json :=
